@@ -21,7 +21,7 @@ EXTENDS TraceBase, Params
 
 VARIABLES tl, tBad, tCnt, touch, vtSeen
 
-Classes == {"proj_idx0", "proj_idx", "aff_idx0", "aff_idx", "pat_random", "pat_limb_ones", "pat_limb_bit", "pat_ones", "pat_zeros",
+Classes == {"proj_idx0", "proj_idx", "aff_idx0", "aff_idx", "pat_random", "pat_limb_ones", "pat_limb_bit", "pat_ones", "pat_zeros", "pat_align0", "pat_align8",
             "touch_ct", "touch_all_readable", "touch_vartime_differs", "layout", "build_asm", "build_purego"}
 
 (* little-endian limbs of R mod p (the Montgomery form of 1), as the raw 32-byte image *)
@@ -37,11 +37,11 @@ Verdict(ev) ==
          << ev.point >= 96 /\ ev.affine >= 64 /\ ev.refcopy /\ HexToInt("01000003d1") = TwoW %% P, {"layout"} >>
     [] ev.ev = "lk.Proj" ->
          LET want == IF ev.idx = 0 THEN IdentityImage ELSE ev.tbl[ev.idx] IN
-         << ev.out = want /\ ev.ref = want /\ (ev.build = "asm" => ev.out_tail = ev.pre_tail),
+         << ev.out = want /\ ev.ref = want /\ (ev.build = "asm" => ev.out_tail = ev.pre_tail) /\ (Has(ev, "faulted") => ~ev.faulted),
             (IF ev.idx = 0 THEN {"proj_idx0"} ELSE {"proj_idx"}) \cup PatClass(ev) >>
     [] ev.ev = "lk.Aff" ->
          LET want == IF ev.idx = 0 THEN Zero32 \o Zero32 ELSE ev.tbl[ev.idx] IN
-         << ev.out = want /\ ev.ref = want, (IF ev.idx = 0 THEN {"aff_idx0"} ELSE {"aff_idx"}) \cup PatClass(ev) >>
+         << ev.out = want /\ ev.ref = want /\ (Has(ev, "faulted") => ~ev.faulted), (IF ev.idx = 0 THEN {"aff_idx0"} ELSE {"aff_idx"}) \cup PatClass(ev) >>
 
 IsStateful(ev) == ev.ev = "lk.Touch"
 
